@@ -15,13 +15,13 @@ package main
 // SCHEMA = generic reflective dump: (st (Field V)...) | (p V) | nil | (l V...) | (s xUTF8) | (i N)
 
 import (
-	"os"
 	"bytes"
 	"encoding/json"
 	"fmt"
 	"io"
 	"math/big"
 	"math/rand"
+	"os"
 	"reflect"
 	"regexp"
 	"strings"
@@ -37,7 +37,6 @@ func init() { props["C14"] = prop{gen: genC14, exec: execC14} }
 // ---------------------------------------------------------------- JSON text -> tree (encoding/json only)
 
 var intSyntax = regexp.MustCompile(`^-?(0|[1-9][0-9]*)$`)
-
 
 // treeOfText returns the document as a tree, preserving member order and duplicates.
 func treeOfText(text []byte) (sx, bool) {
